@@ -1,0 +1,50 @@
+//! Verification hooks for `block_ranges` (compiled only with `--cfg eigerco_lumina_verif`).
+//!
+//! Thin public wrappers around `pub(crate)` items; no behaviour of their own.
+
+use super::{BlockRange, BlockRangeExt, BlockRanges};
+
+/// `BlockRanges::headn`
+pub fn headn(ranges: &BlockRanges, limit: u64) -> BlockRanges {
+    ranges.headn(limit)
+}
+
+/// `BlockRanges::tailn`
+pub fn tailn(ranges: &BlockRanges, limit: u64) -> BlockRanges {
+    ranges.tailn(limit)
+}
+
+/// `BlockRanges::edges`
+pub fn edges(ranges: &BlockRanges) -> BlockRanges {
+    ranges.edges()
+}
+
+/// `BlockRanges::partitions`
+pub fn partitions(ranges: &BlockRanges) -> Option<(BlockRanges, u64, BlockRanges)> {
+    ranges.partitions()
+}
+
+/// `BlockRanges::left_of`
+pub fn left_of(ranges: &BlockRanges, height: u64) -> Option<u64> {
+    ranges.left_of(height)
+}
+
+/// `BlockRanges::right_of`
+pub fn right_of(ranges: &BlockRanges, height: u64) -> Option<u64> {
+    ranges.right_of(height)
+}
+
+/// `BlockRangeExt::headn` on a single range
+pub fn range_headn(range: &BlockRange, limit: u64) -> BlockRange {
+    range.headn(limit)
+}
+
+/// `BlockRangeExt::tailn` on a single range
+pub fn range_tailn(range: &BlockRange, limit: u64) -> BlockRange {
+    range.tailn(limit)
+}
+
+/// `BlockRangeExt::len` on a single range
+pub fn range_len(range: &BlockRange) -> u64 {
+    range.len()
+}
